@@ -3,7 +3,7 @@
    are interleaved into 3-byte pixels and every output row is padded to a multiple of 4 bytes. *)
 From Coq Require Import List ZArith Bool Lia.
 From Coq.Strings Require Import Byte.
-From DRX Require Import Py.PyBytes Proofs.PyBytesFacts Model.Riff Model.Clut Model.Bitd Proofs.BitdFacts Proofs.BitdRawFacts.
+From DRX Require Import Py.PyBytes Proofs.PyBytesFacts Model.Riff Model.Clut Model.Bitd Proofs.BitdFacts Proofs.BitdRawFacts Proofs.Bitd1Facts Proofs.BmpReadFacts.
 Import ListNotations.
 Open Scope Z_scope.
 
@@ -229,3 +229,107 @@ Definition pixel24 (w : Z) (r : bytes) (x : Z) : bytes :=
   [nth (Z.to_nat (w * 3 + x)) r x00; nth (Z.to_nat (w * 2 + x)) r x00; nth (Z.to_nat (w + x)) r x00].
 Definition out_row24 (w : Z) (r : bytes) : bytes :=
   concat (map (pixel24 w r) (zrange (Z.to_nat w))) ++ zeros (Z.to_nat (row_stride (w * 3) - w * 3)).
+
+(* ---------- collect over ranges ---------- *)
+Lemma collect_ok {A B} (g : A -> list B) (l : list A) : collect (map (fun a => Ok (g a)) l) = Ok (concat (map g l)).
+Proof. induction l as [|a l IH]; [reflexivity|]. cbn [map collect bind concat]. rewrite IH. reflexivity. Qed.
+Lemma collect_ext {A B} (F G : A -> result (list B)) (l : list A) : (forall a, In a l -> F a = G a) -> collect (map F l) = collect (map G l).
+Proof.
+  induction l as [|a l IH]; intros H; [reflexivity|]. cbn [map collect]. rewrite (H a (or_introl eq_refl)), IH; [reflexivity|].
+  intros b Hb. apply H. right. exact Hb.
+Qed.
+Lemma in_zrange n x : In x (zrange n) -> 0 <= x < Z.of_nat n.
+Proof.
+  induction n as [|n IH]; [intros []|]. cbn [zrange]. intros H. apply in_app_or in H. destruct H as [H|[<-|[]]]; [specialize (IH H)|]; lia.
+Qed.
+Lemma zrange_length n : length (zrange n) = n.
+Proof. induction n as [|n IH]; [reflexivity|]. cbn [zrange]. rewrite app_length, IH. cbn [length]. lia. Qed.
+Lemma map_zrange_nth {A B} (h : A -> B) (d : A) (R : list A) : map (fun y => h (nth (Z.to_nat y) R d)) (zrange (length R)) = map h R.
+Proof.
+  induction R as [|r R IH] using rev_ind; [reflexivity|].
+  rewrite app_length. cbn [length]. replace (length R + 1)%nat with (S (length R)) by lia. cbn [zrange].
+  rewrite !map_app. cbn [map]. f_equal.
+  - rewrite <- IH. apply map_ext_in. intros y Hy. apply in_zrange in Hy. rewrite app_nth1 by lia. reflexivity.
+  - rewrite Nat2Z.id, app_nth2, Nat.sub_diag by lia. reflexivity.
+Qed.
+
+(* indexing a buffer made of equally long rows (as in BmpReadFacts, for get_idx) *)
+Lemma get_idx_rows width (R : list (list byte)) y k : Forall (fun r => zlen r = width) R -> 0 <= y < zlen R -> 0 <= k < width ->
+  get_idx (concat R) (y * width + k) = Ok (nth (Z.to_nat k) (nth (Z.to_nat y) R []) x00).
+Proof.
+  intros Hall Hy Hk. unfold get_idx. rewrite <- (app_nil_r (concat R)).
+  rewrite (index_rows width R [] y k Hall Hy Hk).
+  assert (Hr : zlen (nth (Z.to_nat y) R []) = width).
+  { rewrite Forall_forall in Hall. apply Hall. apply nth_In. unfold zlen in Hy. lia. }
+  rewrite index_nth by lia. reflexivity.
+Qed.
+
+Lemma mix24_rows w (R : list (list byte)) : 0 <= w -> Forall (fun r => zlen r = w * 4) R ->
+  mix24 (concat R) w (zlen R) = Ok (concat (map (out_row24 w) R)).
+Proof.
+  intros Hw Hall. unfold mix24. unfold zlen at 1. rewrite Nat2Z.id.
+  etransitivity; [apply (collect_ext _ (fun y => Ok (out_row24 w (nth (Z.to_nat y) R []))))|].
+  - intros y Hy. apply in_zrange in Hy.
+    assert (E : collect (map (fun x => let! r := get_idx (concat R) (y * (w * 4) + w * 3 + x) in
+                                       let! g := get_idx (concat R) (y * (w * 4) + w * 2 + x) in
+                                       let! b := get_idx (concat R) (y * (w * 4) + w + x) in Ok [r; g; b]) (zrange (Z.to_nat w)))
+                = Ok (concat (map (pixel24 w (nth (Z.to_nat y) R [])) (zrange (Z.to_nat w))))).
+    { etransitivity; [apply (collect_ext _ (fun x => Ok (pixel24 w (nth (Z.to_nat y) R []) x)))|apply collect_ok].
+      intros x Hx. apply in_zrange in Hx. rewrite Z2Nat.id in Hx by lia.
+      replace (y * (w * 4) + w * 3 + x) with (y * (w * 4) + (w * 3 + x)) by lia.
+      replace (y * (w * 4) + w * 2 + x) with (y * (w * 4) + (w * 2 + x)) by lia.
+      replace (y * (w * 4) + w + x) with (y * (w * 4) + (w + x)) by lia.
+      rewrite !(get_idx_rows (w * 4) R y) by (try assumption; unfold zlen; lia). reflexivity. }
+    rewrite E. reflexivity.
+  - etransitivity; [apply (collect_ok (fun y => out_row24 w (nth (Z.to_nat y) R [])))|].
+    f_equal. f_equal. apply (map_zrange_nth (out_row24 w) []).
+Qed.
+
+(* ---------- the whole 32-bit image ---------- *)
+(* rows: the stored rows top-down, each 4 * w bytes (four planes); ts: any PackBits segmentation of their concatenation *)
+Theorem compressed24_pixels w h ts rows :
+  0 < w -> Forall wf_tok ts -> dec_toks ts = concat rows -> Forall (fun r => zlen r = w * 4) rows -> zlen rows = h ->
+  decode_compressed24 (enc_toks ts) w h (w * 4) = Ok (concat (map (out_row24 w) (rev rows))).
+Proof.
+  intros Hw Hwf Hdec Hall Hh. unfold decode_compressed24.
+  pose proof (zlen_nonneg rows) as Hrn.
+  unfold bytearray. destruct (Z.ltb_spec (w * 4 * h) 0); [nia|]. cbn [bind].
+  assert (Hs : zlen (dec_toks ts) = w * 4 * h) by (rewrite Hdec, (zlen_concat_rows (w * 4) rows Hall); lia).
+  destruct (Z.eq_dec h 0) as [Hh0|Hh0].
+  - (* no rows at all *)
+    assert (rows = []) by (apply zlen_le0_nil; lia). subst rows. cbn [concat] in Hdec.
+    assert (ts = []).
+    { destruct ts as [|t ts']; [reflexivity|]. exfalso. unfold dec_toks in Hs. cbn [map concat] in Hs. rewrite zlen_app in Hs.
+      pose proof (dec_tok_pos t (Forall_inv Hwf)). pose proof (zlen_nonneg (concat (map dec_tok ts'))). lia. }
+    subst ts h. rewrite Hh0. cbn. rewrite Z.mul_0_r. reflexivity.
+  - assert (Hn : (length ts <= length (enc_toks ts))%nat).
+    { clear - Hwf. induction Hwf as [|t ts Ht _ IHt]; [cbn; lia|]. unfold enc_toks in *. cbn [map concat]. rewrite app_length. cbn [length].
+      destruct t as [l|n v]; cbn [enc_tok length wf_tok] in *; lia. }
+    replace (S (length (enc_toks ts))) with (length ts + S (length (enc_toks ts) - length ts))%nat by lia.
+    replace (zeros (Z.to_nat (w * 4 * h))) with (layout (w * 4) 0 (h - 1) [] []).
+    2:{ unfold layout. destruct (Z.ltb_spec (h - 1) 0); [lia|]. cbn [app]. rewrite app_nil_r, Z.sub_0_r.
+        rewrite <- zerosZ_add by nia. unfold zerosZ. f_equal. f_equal. lia. }
+    replace (enc_toks ts) with ([] ++ enc_toks ts ++ []) at 2 by (rewrite app_nil_r; reflexivity).
+    change 0 with (zlen (@nil byte)) at 2.
+    assert (Hw4 : 0 < w * 4) by lia.
+    rewrite (loop24_tokens (w * 4) Hw4 ts); [| exact Hwf | change (zlen (@nil byte)) with 0; lia | reflexivity | change (zlen (@nil byte)) with 0; unfold room; rewrite Hs; lia].
+    change (zlen (@nil byte)) with 0.
+    rewrite Hdec, (wr_rows (w * 4) Hw4 rows (h - 1) [] Hall).
+    replace (h - 1 - zlen rows) with (-1) by lia.
+    (* everything is written: the loop stops *)
+    assert (Estop : forall fuel f idx, loop24 fuel f (Build_st (layout (w * 4) 0 (-1) [] (concat (rev rows) ++ [])) 0 (-1) idx) (w * 4)
+                                       = Ok (Build_st (layout (w * 4) 0 (-1) [] (concat (rev rows) ++ [])) 0 (-1) idx)).
+    { intros fuel f idx. destruct fuel; cbn [loop24 s_idx s_y]; rewrite andb_false_r; reflexivity. }
+    rewrite Estop. cbn [bind s_data]. unfold layout. cbn [Z.ltb Z.compare]. rewrite app_nil_r.
+    destruct (Z.ltb_spec (row_stride (w * 3) * h) 0) as [Hneg|_].
+    { exfalso. unfold row_stride in Hneg. assert (0 <= (w * 3 + 3) / 4) by (apply Z.div_pos; lia). nia. }
+    cbn [bind].
+    assert (Hrl : zlen (rev rows) = h) by (unfold zlen in *; rewrite rev_length; exact Hh).
+    rewrite <- Hrl. apply mix24_rows; [lia|]. apply Forall_rev. exact Hall.
+Qed.
+
+Theorem compressed24_encoding_independent w h ts1 ts2 rows :
+  0 < w -> Forall wf_tok ts1 -> Forall wf_tok ts2 -> dec_toks ts1 = concat rows -> dec_toks ts2 = concat rows ->
+  Forall (fun r => zlen r = w * 4) rows -> zlen rows = h ->
+  decode_compressed24 (enc_toks ts1) w h (w * 4) = decode_compressed24 (enc_toks ts2) w h (w * 4).
+Proof. intros. rewrite (compressed24_pixels w h ts1 rows), (compressed24_pixels w h ts2 rows) by assumption. reflexivity. Qed.
